@@ -23,7 +23,8 @@ from vf.ref.layout import from_memref_type
 
 LEVEL = "translation_validation"
 RULE = (
-    "G-mem functions: 2-5 buffers from {function arguments (external space), memref.alloc, memref.global with dense initialiser (read only)}, "
+    "G-mem functions: 2-5 buffers from {function arguments (external space), memref.alloc, memref.global with dense initialiser (read only), "
+    "static subview of a larger dense global (the global's only user), arith.constant dense<..> of memref type}, "
     "1-5 accelerator ops (linalg.generic with library_call; ins/outs drawn from the buffers in any order: reader-after-writer, "
     "writer-after-reader, same buffer as input of one op and output of another), optional explicit snax.layout_cast to a dense static #tsl "
     "(all step-order permutations) on operands, optional scf.for (trip counts 0..3) around groups of ops, neutral test.op readers. "
@@ -42,7 +43,7 @@ TIERS = {
     "thorough": {"shards": 16, "cases": 3500, "timeout": 7200},
 }
 FLOORS = {
-    "quick": {"programs": 1200, "accelerator_ops_compared": 6000, "external_buffers_compared": 2500, "distinct_nontrivial": 300, "memory_space_walks": 1200, "globals_decoded": 50},
+    "quick": {"programs": 1200, "accelerator_ops_compared": 6000, "external_buffers_compared": 2500, "distinct_nontrivial": 300, "memory_space_walks": 1200, "globals_decoded": 50, "constants_decoded": 100, "transposed_constants_checked": 100},
     "thorough": {"programs": 35000, "accelerator_ops_compared": 180000, "distinct_nontrivial": 3000},
 }
 
@@ -82,6 +83,29 @@ class CastMachine(BufMachine):
         r = self.roots[key]
         self.env[op.results[0]] = MRef(r, r.data, r.ids)
 
+    def dense_constant(self, op, v):
+        """arith.constant dense<..> : memref<.., layout>: stored values are in memory order of the layout (row-major without one)."""
+        t = op.results[0].type
+        if not isinstance(t, MemRefType):
+            raise Unsupported("dense constant of non-memref type")
+        shape = list(t.get_shape())
+        flat = np.array([int(x) for x in v.get_values()], dtype=np.int64)
+        if flat.size == 1 and int(np.prod(shape)) != 1:
+            flat = np.full(int(np.prod(shape)), flat[0], dtype=np.int64)
+        if getattr(t.layout, "name", "") == "tsl.tsl":
+            ref = from_memref_type(t)
+            data = np.zeros(shape, dtype=np.int64)
+            for idx in ref.indices():
+                a = ref.addr(idx)
+                if a >= flat.size:
+                    raise MachineError(f"constant: layout address {a} outside the {flat.size} stored values")
+                data[idx] = flat[a]
+            self.events.append(("constant-decoded", len(self.events)))
+        else:
+            data = flat.reshape(shape)
+        self.const_n = getattr(self, "const_n", 0) + 1
+        return self.new_root(f"const#{self.const_n}", data, "const")
+
 
 # -- generator ---------------------------------------------------------------------------------------
 def gen_case(rng):
@@ -96,8 +120,56 @@ def gen_case(rng):
     args = []
     body = []
     for i in range(nbuf):
-        kind = rng.choice(["arg", "arg", "alloc", "global"])
-        if kind == "arg":
+        kind = rng.choice(["arg", "arg", "alloc", "global", "gsub", "const"])
+        if kind == "gsub":
+            # a block of a larger read-only global, taken by a static subview that is the global's only user
+            mult = rng.choice([2, 2, 4])
+            if len(shape) == 1:
+                gshape = [shape[0] * mult]
+                j = rng.randrange(mult)
+                offs = [j * shape[0]]
+                st_txt = f"strided<[1], offset: {offs[0]}>"
+            elif rng.random() < 0.5:
+                gshape = [shape[0] * mult, shape[1]]
+                j = rng.randrange(mult)
+                offs = [j * shape[0], 0]
+                st_txt = f"strided<[{gshape[1]}, 1], offset: {offs[0] * gshape[1]}>"
+            else:
+                gshape = [shape[0], shape[1] * mult]
+                j = rng.randrange(mult)
+                offs = [0, j * shape[1]]
+                st_txt = f"strided<[{gshape[1]}, 1], offset: {offs[1]}>"
+            gdims = "x".join(map(str, gshape))
+            GT = f"memref<{gdims}xi32>"
+            ST = f"memref<{dims}xi32, {st_txt}>"
+            total = 1
+            for s_ in gshape:
+                total *= s_
+            flat = [1000 * (i + 1) + k for k in range(total)]
+            if len(gshape) == 1:
+                vals = "[" + ", ".join(map(str, flat)) + "]"
+            else:
+                rows = [flat[r * gshape[1] : (r + 1) * gshape[1]] for r in range(gshape[0])]
+                vals = "[" + ", ".join("[" + ", ".join(map(str, r)) + "]" for r in rows) + "]"
+            header.append(f'  "memref.global"() <{{sym_name = "g{i}", type = {GT}, initial_value = dense<{vals}> : tensor<{gdims}xi32>, sym_visibility = "private", constant}}> : () -> ()')
+            body.append(f"    %gg{i} = memref.get_global @g{i} : {GT}")
+            body.append(
+                f"    %a{i} = memref.subview %gg{i}[{', '.join(map(str, offs))}] [{', '.join(map(str, shape))}] [{', '.join(['1'] * len(shape))}] : {GT} to {ST}"
+            )
+            bufs.append({"name": f"%a{i}", "kind": "gsub", "ro": True, "type": ST})
+        elif kind == "const":
+            total = 1
+            for s_ in shape:
+                total *= s_
+            flat = [5000 * (i + 1) + k for k in range(total)]
+            if len(shape) == 1:
+                vals = "[" + ", ".join(map(str, flat)) + "]"
+            else:
+                rows = [flat[r * shape[1] : (r + 1) * shape[1]] for r in range(shape[0])]
+                vals = "[" + ", ".join("[" + ", ".join(map(str, r)) + "]" for r in rows) + "]"
+            body.append(f"    %a{i} = arith.constant dense<{vals}> : {T}")
+            bufs.append({"name": f"%a{i}", "kind": "const", "ro": True})
+        elif kind == "arg":
             args.append(f"%a{i}: {T}")
             bufs.append({"name": f"%a{i}", "kind": "arg", "ro": False})
         elif kind == "alloc":
@@ -155,7 +227,7 @@ def gen_case(rng):
         vid += 1
         names, types = [], []
         for b in ins + [out]:
-            nm, tt = b["name"], T
+            nm, tt = b["name"], b.get("type", T)
             names.append(nm)
             types.append(tt)
         blk = ", ".join(f"%x{vid}_{q}: i32" for q in range(nin + 1))
@@ -178,12 +250,12 @@ def gen_case(rng):
     for b in bufs:
         if rng.random() < 0.3:
             vid += 1
-            body.append(f'    "test.op"({b["name"]}) {{verif.id = "t{vid}"}} : ({T}) -> ()')
+            body.append(f'    "test.op"({b["name"]}) {{verif.id = "t{vid}"}} : ({b.get("type", T)}) -> ()')
             skel.append("t" + str(bufs.index(b)))
     ret = ""
     rett = ""
     if rng.random() < 0.2:
-        b = rng.choice(bufs)
+        b = rng.choice([x for x in bufs if "type" not in x])
         ret, rett = b["name"], T
     text = (
         "builtin.module {\n"
@@ -324,6 +396,7 @@ def run_case(case, res):
         R.bump(res, "accelerator_ops_compared", len(x0))
         R.bump(res, "external_buffers_compared", len(e0))
         R.bump(res, "globals_decoded", sum(1 for e in m2.events if e[0] == "global-decoded"))
+        R.bump(res, "constants_decoded", sum(1 for e in m2.events if e[0] == "constant-decoded"))
         bad = None
         if len(x0) != len(x2):
             bad = f"{len(x0)} accelerator/neutral op executions before, {len(x2)} after"
@@ -387,6 +460,93 @@ def attribute(v):
     return None
 
 
+_ctx = None
+
+
+# -- monitor 2: constants transposed at compile time (frontend remove-transpose-constants) --------------------------------------
+def gen_transpose_case(rng):
+    r, c = rng.choice([1, 2, 3, 4, 5, 8]), rng.choice([1, 2, 3, 4, 5, 8])
+    el = rng.choice(["i8", "i32", "i32", "i64"])
+    lim = 100 if el == "i8" else 100000
+    vals = [[rng.randrange(-lim, lim) for _ in range(c)] for _ in range(r)]
+    return {"transpose": True, "r": r, "c": c, "el": el, "vals": vals, "extra_user": rng.random() < 0.2}
+
+
+def run_transpose_case(case, res):
+    """linalg.generic that only transposes an arith.constant tensor -> REAL RemoveTransposeConstants pattern -> the constant left in the
+    function must hold in[j][i] at [i][j] (values read back from the dense attribute, independent of how the pass computed them)."""
+    global _ctx
+    if _ctx is None:
+        _ctx = make_ctx()
+    c = _ctx
+    out = []
+    r, cc, el, vals = case["r"], case["c"], case["el"], case["vals"]
+    dense = "[" + ", ".join("[" + ", ".join(map(str, row)) + "]" for row in vals) + "]"
+    extra = f'    "test.op"(%w) {{verif.id = "other"}} : (tensor<{r}x{cc}x{el}>) -> ()\n' if case.get("extra_user") else ""
+    text = f"""builtin.module {{
+  func.func public @main() -> tensor<{cc}x{r}x{el}> {{
+    %w = arith.constant dense<{dense}> : tensor<{r}x{cc}x{el}>
+    %e = tensor.empty() : tensor<{cc}x{r}x{el}>
+{extra}    %t = linalg.generic {{indexing_maps = [affine_map<(d0, d1) -> (d1, d0)>, affine_map<(d0, d1) -> (d0, d1)>], iterator_types = ["parallel", "parallel"]}} ins(%w : tensor<{r}x{cc}x{el}>) outs(%e : tensor<{cc}x{r}x{el}>) {{
+    ^bb0(%x: {el}, %y: {el}):
+      linalg.yield %x : {el}
+    }} -> tensor<{cc}x{r}x{el}>
+    func.return %t : tensor<{cc}x{r}x{el}>
+  }}
+}}
+"""
+    res["evaluations"] += 1
+    try:
+        m = parse(c, text)
+        m.verify()
+    except Exception as e:
+        R.bump(res, "generator_invalid")
+        R.reject(res, e)
+        return out
+    try:
+        # the pattern is applied exactly as PreprocessPass does after its mlir-opt steps (mlir-opt is absent here)
+        from xdsl.pattern_rewriter import PatternRewriteWalker
+
+        from snaxc.transforms.frontend.remove_transpose_constants import RemoveTransposeConstants
+        from vf.ctx import time_limit
+
+        with time_limit(5):
+            PatternRewriteWalker(RemoveTransposeConstants(), apply_recursively=False).rewrite_module(m)
+        m.verify()
+    except PassTimeout:
+        R.reject(res, "PassTimeout")
+        return out
+    except Exception as e:
+        R.reject(res, e)
+        return out
+    ret = [op for op in m.walk() if op.name == "func.return"][0]
+    src = ret.operands[0].owner
+    if getattr(src, "name", "") != "arith.constant":
+        R.bump(res, "transpose_not_folded")
+        return out
+    res["programs"] += 1
+    res["compared"] += 1
+    R.bump(res, "transposed_constants_checked")
+    got = [int(x) for x in src.value.get_values()]
+    shape = list(src.results[0].type.get_shape())
+    bad = None
+    if shape != [cc, r] or len(got) != r * cc:
+        bad = f"folded constant has shape {shape} / {len(got)} values, the transpose of {r}x{cc} is {cc}x{r}"
+    else:
+        for i in range(cc):
+            for j in range(r):
+                if got[i * r + j] != vals[j][i]:
+                    bad = f"element [{i}][{j}] of the folded constant is {got[i * r + j]}, the source holds {vals[j][i]} at [{j}][{i}]"
+                    break
+            if bad:
+                break
+    if bad:
+        out.append({"kind": "constant-relaid-out-with-different-values", "detail": "[remove-transpose-constants] " + bad, "case": case, "info": {}})
+    else:
+        R.nontrivial(res, "transpose", r, cc, el)
+    return out
+
+
 def run_shard(seed, shard, n_cases, tier):
     res = R.new_result()
     rng = random.Random(seed)
@@ -396,8 +556,15 @@ def run_shard(seed, shard, n_cases, tier):
             R.violation(res, v["kind"], v["detail"], v["case"], attribute(v), info=v.get("info"))
         if i < 2 and shard == 0:
             R.sample(res, {"module": case["text"][:3000]})
+    rng_t = random.Random(seed ^ 0x7A11)
+    for i in range(max(4, n_cases // 4)):
+        case = gen_transpose_case(rng_t)
+        for v in run_transpose_case(case, res):
+            R.violation(res, v["kind"], v["detail"], v["case"], attribute(v), info=v.get("info"))
     return res
 
 
 def replay(case):
+    if case.get("transpose"):
+        return run_transpose_case(case, R.new_result())
     return run_case(case, R.new_result())
